@@ -34,7 +34,8 @@ LEVEL_TEXT = ('Every call of every built-in reset function (through the real fac
               'must either raise ValueError or return a state satisfying the per-function predicate: requested shape, unbroken '
               'wall boundary, agent inside, empty-handed, on a non-blocking cell that is not an exit/obstacle/telepod, and the '
               'advertised inventory. For the smallest accepted shapes of each function all random outcomes are enumerated with '
-              'the scripted generator (exhaustive per shape).')
+              'the scripted generator (exhaustive per shape).'
+              ' Also: layouts with zero or negative room counts, long layouts (up to 71 cells x 15 rooms), the grid run twice in shuffled orders.')
 LEVEL_NOTE = ('Trusted: the predicates in this module. Layout entries < 1, non-integer parameters and river object types other '
               'than Wall are outside the documented domain and not generated; crossing truncating num_rivers is accepted.')
 SHARDS = {'quick': 4, 'thorough': 16}
